@@ -135,9 +135,11 @@ End DOWN.
 (* ================= what a down-sampled sample is, in terms of the stored samples ================= *)
 (* the stored samples a group summarises when the table is the view of the samples: those of the fingerprint, metric
    typed, whose 15 s bucket start passes down_keep and is stamped T *)
+Definition row_of_sample (s : samplerow) : m15row :=
+  {| q_fp := sm_fp s; q_type := sm_type s; q_ts_ns := bucket15 (sm_ts_ns s); q_parts := [(sm_ts_ns s, sm_value s)] |}.
 Definition summarised (h : hints) (from_ns to_ns t : Z) (fp : N) (T : Z) (samples : list samplerow) : list samplerow :=
   filter (fun s => N.eqb (sm_fp s) fp
-                   && down_keep h from_ns to_ns t [fp] {| q_fp := fp; q_type := sm_type s; q_ts_ns := bucket15 (sm_ts_ns s); q_parts := [] |}
+                   && down_keep h from_ns to_ns t [sm_fp s] (row_of_sample s)
                    && Z.eqb (down_stamp h (bucket15 (sm_ts_ns s))) T) samples.
 
 (* ---- comparison function of the generated cases (checks/promsel.py, kind "down"):
